@@ -12,6 +12,9 @@ claimed = {
  "C13": dict(level="exploration", engine="E3-enum", technique="bounded-exhaustive enumeration of small trees x path lists on a real file system against an independent walk and the real sender-side resolver",
    text="All trees up to 3-4 entries (5 in the thorough tier) over a name alphabet containing the tool's own disambiguation prefixes and a kind alphabet with symlinks to files, directories and nothing, crossed with all path lists up to length 2-3 in several spellings, are materialised on tmpfs and scanned by the real Scan/ScanPaths; each manifest is compared with an independent lstat walk through the real buildPathResolver (exactly-once, distinct, sorted, counts, size = bytes read, rescan identical).",
    note="Trusted: the oracle walk (os.Stat for a given path, no following of nested links); FIFOs/devices are outside the alphabet; cases the scanner refuses with an error are counted, not judged.", ref="§4 C13"),
+ "C11": dict(level="model_checking", engine="E1-sched", technique="stateless model checking of the real hub under a controlled scheduler: delay-bounded DFS over all schedules of ~8k scenario templates, porcupine linearizability oracle",
+   text="The real internal/peers hub (instrumented at build time: goroutines, channels, locks, timers become scheduler operations) is driven by scenario templates of 2-3 threads x 1-2 operations on one shared session plus an uninvolved session; every schedule within delay bound 2 (quick) / 3 (thorough) is executed and checked for panics (a send on a closed channel panics exactly as in Go), deadlocks, linearizability of Add/remove/List/SendTo against a sequential map (porcupine), routability of connected peers, absence of left peers, and table leaks.",
+   note="Trusted: the vrt runtime's channel/lock/timer semantics (Appendix A); data races on plain variables are outside the explorer (sequentially consistent, preempts only at synchronisation points). Bounds: <=3 worker threads, <=2 ops per thread, delay bound 2/3.", ref="§4 C11"),
 }
 todo = {}
 props=[json.loads(l) for l in open('/verif/properties.jsonl')]
